@@ -376,6 +376,26 @@ func (x *Exec) runFunc(fd *ast.FuncDecl, c *Contract, sc splitCase, first bool) 
 		if c.Modifies != nil || c.Pure {
 			x.checkFrame(exit, pre, c, fd.Pos())
 		}
+		// ghost frame: ghosts not declared in modifies are unchanged
+		var gnames []string
+		for name := range x.eng.cf.Ghosts {
+			gnames = append(gnames, name)
+		}
+		sort.Strings(gnames)
+		for _, name := range gnames {
+			if c.modifiesGhost(name) {
+				continue
+			}
+			ev, ok := exit.globals["ghost."+name]
+			if !ok {
+				continue
+			}
+			pv, ok := pre.globals["ghost."+name]
+			if !ok {
+				continue
+			}
+			x.oblige(exit, "frame", "ghostframe."+name, x.eqV(ev, pv), fd.Pos(), nil)
+		}
 	}
 }
 
